@@ -115,6 +115,13 @@ def run(ctx):
             else:
                 x = "".join(s for s in tokens_with_dots(g.string(1, rng.choice([10, 40, 150]))) if s in aset)
             p2 = {"selfies": x, "table": table}
+            if rng.random() < 0.2:
+                # a string of the user's own (not over the alphabet) that the decoder refuses half way - after ring and
+                # branch symbols of high-capacity atoms have been read - right before the alphabet string
+                junk = "".join(rng.choice(AL) for _ in range(rng.choice([4, 8, 20]))) + rng.choice(["[Foo]", "[CH9]", "[", "[Branch7]"])
+                call_guard(lambda: sf.decoder(rng.choice(["[S][P][S][P]", "[Fe][C][C][Fe]", "[C][C][C][C]"]) + "[=Ring1][Ring2]" + junk), expected=(sf.DecoderError,))
+                ctx.count("refused_string_before_alphabet_string")
+                MON.drain()
             d = call_guard(lambda: sf.decoder(x), expected=(sf.DecoderError,))
             for mon, msg in MON.drain():
                 ctx.finding("monitor-" + mon, p2, msg)
